@@ -6,6 +6,7 @@ require (
 	github.com/Jigsaw-Code/outline-sdk v0.0.14
 	github.com/Jigsaw-Code/outline-ss-server v0.0.0
 	github.com/anishathalye/porcupine v1.3.0
+	github.com/shadowsocks/go-shadowsocks2 v0.1.5
 )
 
 require (
@@ -19,7 +20,6 @@ require (
 	github.com/prometheus/client_model v0.3.0 // indirect
 	github.com/prometheus/common v0.42.0 // indirect
 	github.com/prometheus/procfs v0.9.0 // indirect
-	github.com/shadowsocks/go-shadowsocks2 v0.1.5 // indirect
 	golang.org/x/crypto v0.17.0 // indirect
 	golang.org/x/sys v0.16.0 // indirect
 	google.golang.org/protobuf v1.30.0 // indirect
